@@ -50,6 +50,10 @@ func c04Cfg(r *Rng) *DeclCfg {
 
 // oddify adds declaration shapes the library accepts but no test uses.
 func oddify(r *Rng, d *DeclSpec) {
+	if r.Fork("nsdelim").Chance(1, 12) {
+		d.NSDelimEmpty = true // Parser.NamespaceDelimiter = "": namespaces and names run together
+	}
+	ownHelp := false
 	for _, oi := range optInfos(d) {
 		o := oi.O
 		switch {
@@ -82,6 +86,23 @@ func oddify(r *Rng, d *DeclSpec) {
 			}
 		case r.Chance(1, 25):
 			o.Desc = "ünïcödé désçrîptîön ✓ with a\nnewline and\ttab"
+		case r.Chance(1, 25):
+			o.Desc = "up to 100% of %d items (%s), see %[2]v" // a description is text, not a format
+		case r.Chance(1, 30) && !isFuncKind(o.Kind) && !ownHelp:
+			// the program's own -h / --help beside the built-in one (once per declaration)
+			taken := false
+			for _, x := range optInfos(d) {
+				taken = taken || x.O.Long == "help" || x.O.Short == "h"
+			}
+			if !taken {
+				ownHelp = true
+				if r.Bool() {
+					o.Long = "help"
+				} else {
+					o.Short = "h"
+				}
+				d.Options |= optHelpFlag
+			}
 		case r.Chance(1, 25) && o.Long != "":
 			o.ValueName = "VÄLUE"
 		}
@@ -390,6 +411,11 @@ func (propC04) Judge(sc *Scenario) *Verdict {
 		}
 		v.NonTrivial = nt
 		return v
+	}
+	if o.DeclHang {
+		v.failAttr("C04", "c04:abnormal:hang", fmt.Sprintf("declaring the options (NewParser / AddGroup / AddCommand with the parser configured as in the scenario) did not return within the step budget; no argument vector can be parsed\nargv=%q options=%#x", argv, d.Options),
+			map[string]string{"abnormal": "hang-while-declaring"})
+		return finish("abnormal:hang")
 	}
 	if o.DeclErr != "" {
 		v.NotJudged = "declaration rejected"
